@@ -1,4 +1,4 @@
-use super::Attribute;
+use super::{strip_text_padding, Attribute};
 use crate::builder::MessageBuilder;
 use crate::parse::{ParsedAttr, ParsedMessage};
 use crate::{Error, NE};
@@ -39,7 +39,7 @@ impl<'s> Attribute<'s> for ErrorCode<'s> {
         let head = ErrorCodeHead(head);
 
         let reason = if !value.is_empty() {
-            from_utf8(value)?
+            from_utf8(strip_text_padding(value))?
         } else {
             ""
         };
